@@ -68,8 +68,8 @@ def findings():
         A = cola.SelfAdjoint(ops.Dense(np.diag([1., -2.])))
         y = np.asarray(pow(A, -1, Eigh()) @ np.ones(2))
         return not np.allclose(y, [1, -.5]), y.tolist()
-    probe("pow_minus1_eigh_requires_psd", "pow(A, -1, Eigh()) translates Eigh into Cholesky: AssertionError for a SelfAdjoint operator that is not declared PSD "
-          "(Eigh itself only needs SelfAdjoint)", p_m1e, "pow(SelfAdjoint(Dense(diag(1,-2))),-1,Eigh()) @ ones(2)")
+    probe("pow_minus1_requires_psd", "pow(A, -1, Eigh()|Lanczos()) translates the algorithm into Cholesky / CG: AssertionError for a SelfAdjoint operator that is not declared PSD "
+          "(Eigh and Lanczos themselves only need SelfAdjoint)", p_m1e, "pow(SelfAdjoint(Dense(diag(1,-2))),-1,Eigh()) @ ones(2)")
 
     def p_ident():
         y = np.asarray(pow(ops.Identity((2, 2), np.float64), 2).to_dense())
@@ -165,11 +165,15 @@ def gen_leaf(rnd, g, fn, cplx, psd, nmax=3, allow_zero=False):
         lam = np.abs(spectrum(rnd, n, "rhp" if fn.domain == "rhp" else "any", False, allow_zero)) if fn.domain != "rhp" else spectrum(rnd, n, "rhp", False)
         if allow_zero and fn.domain == "any" and rnd.random() < 0.3:
             lam[0] = 0.0
+        if n >= 2 and rnd.random() < 0.3:
+            lam[1] = lam[0]          # repeated eigenvalue, eigenspace in general position
         Q = L.rand_unitary(g, n, cplx)
         M = (Q * lam) @ Q.conj().T
         M = (M + M.conj().T) / 2
     else:
         lam = spectrum(rnd, n, fn.domain, cplx)
+        if n >= 2 and rnd.random() < 0.3:
+            lam[1] = lam[0]
         S = L.well_cond(g, n, cplx, 3.0)
         M = S @ np.diag(lam) @ np.linalg.inv(S)
     if not cplx:
@@ -706,8 +710,8 @@ def run(ctx):
         if fn.name == "pow" and isint and kk == -1 and alg in ("Lanczos", "Arnoldi") and "pow_minus1_krylov_kwargs" in present:
             bump(skipped, "pow_minus1_krylov_kwargs")
             continue
-        if fn.name == "pow" and isint and kk == -1 and alg == "Eigh" and cls.startswith("sa") and "pow_minus1_eigh_requires_psd" in present:
-            bump(skipped, "pow_minus1_eigh_requires_psd")
+        if fn.name == "pow" and isint and kk == -1 and alg in ("Eigh", "Lanczos") and cls.startswith("sa") and "pow_minus1_requires_psd" in present:
+            bump(skipped, "pow_minus1_requires_psd")
             continue
         if cls == "kronsq":
             Sd = Sq.astype(getattr(np, dt)) if cplx else Sq.real.astype(getattr(np, dt))
